@@ -13,7 +13,7 @@
    (queue_well_formed, handles_enqueued_once below). *)
 From Coq Require Import List NArith Bool.
 From Dials Require Import Base.Outcome Core.CbMgr Core.Monitor Core.System Core.CbMgrProofs Core.MonitorProofs
-  Core.SystemProofs Core.QueueProofs.
+  Core.SystemProofs Core.QueueProofs Core.HistoryProofs.
 Import ListNotations.
 Open Scope N_scope.
 
@@ -206,6 +206,86 @@ Theorem sys_none_after_unregister : forall (cfg sv : Type) (stack : list sv -> o
     existsb (is_user_inv_of h) (outs on_new on_err (after on_new on_err cb_init (pre ++ [EvUnreg h a])) post) = false.
 Proof. exact @sys_none_after_unregister_l. Qed.
 
+(* the callback history exactly: what has been logged, plus the rest of the
+   iteration the goroutine is in, is the fold over the events taken; nothing is
+   pending while the goroutine is at its receive or gone *)
+Theorem callback_history_exact : forall (cfg sv : Type) (stack : list sv -> option cfg) (verify : cfg -> bool)
+    (p : params) (on_new on_err : bool) (cbcap : N) (inits : list sv) (watching : list bool)
+    (s0 : sys cfg sv) (ls : list (label sv)) (s : sys cfg sv),
+  snd (sys_init stack verify p inits watching) = Ok s0 ->
+  run stack verify p on_new on_err cbcap s0 ls = Some s ->
+  cb_hist (s_log s) ++ pending_of s = outs on_new on_err cb_init (taken_of (s_log s)) /\
+  (forall cst, s_cb s = CRun cst [] -> pending_of s = []) /\
+  (s_cb s = CExited -> pending_of s = []).
+Proof. exact @callback_history_exact_l. Qed.
+
+(* catch-up, every schedule: at the place of a registration the goroutine has
+   taken, its outputs have the immediate call (token config, last announced
+   config) iff the token is valid and below the last serial announced to the
+   goroutine before it took that registration; nothing otherwise *)
+Theorem sys_catchup_iff : forall (cfg sv : Type) (stack : list sv -> option cfg) (verify : cfg -> bool)
+    (p : params) (on_new on_err : bool) (cbcap : N) (inits : list sv) (watching : list bool)
+    (s0 : sys cfg sv) (ls : list (label sv)) (s : sys cfg sv) (h : N) (tok : option (vcfg cfg))
+    (pre post : list (cb_event cfg)),
+  snd (sys_init stack verify p inits watching) = Ok s0 ->
+  run stack verify p on_new on_err cbcap s0 ls = Some s ->
+  taken_of (s_log s) = pre ++ EvReg h tok :: post ->
+  let L := last_announced 0 pre in
+  exists call,
+    cb_hist (s_log s) ++ pending_of s =
+      outs on_new on_err cb_init pre ++ call
+        ++ outs on_new on_err (after on_new on_err cb_init (pre ++ [EvReg h tok])) post /\
+    match tok with
+    | Some tc =>
+        if fst tc <? L
+        then exists lv, fst lv = L /\ call = [OInv (InvUser h tc (Some lv) true)]
+        else call = []
+    | None => call = []
+    end.
+Proof. exact @sys_catchup_iff_l. Qed.
+
+(* no skip, every schedule: a handle registered in the queue history and not
+   unregistered since gets every version announced after it and above its
+   token - the call has been produced, or is produced by the fold over what is
+   still queued *)
+Theorem sys_no_skip_without_overflow : forall (cfg sv : Type) (stack : list sv -> option cfg) (verify : cfg -> bool)
+    (p : params) (on_new on_err : bool) (cbcap : N) (inits : list sv) (watching : list bool)
+    (s0 : sys cfg sv) (ls : list (label sv)) (s : sys cfg sv) (pre : list (cb_event cfg)) (h : N)
+    (tok : option (vcfg cfg)) (mid : list (cb_event cfg)) (old new : vcfg cfg) (k : N) (sup : bool)
+    (post : list (cb_event cfg)),
+  snd (sys_init stack verify p inits watching) = Ok s0 ->
+  run stack verify p on_new on_err cbcap s0 ls = Some s ->
+  enq_of (s_log s) = pre ++ EvReg h tok :: mid ++ EvNew old new k sup :: post ->
+  no_unreg h mid -> tok_serial tok < k ->
+  In (OInv (InvUser h old (Some new) false))
+     (cb_hist (s_log s) ++ pending_of s
+        ++ outs on_new on_err (after on_new on_err cb_init (taken_of (s_log s))) (s_cbq s)).
+Proof. exact @sys_no_skip_l. Qed.
+
+(* ... and without overflow nothing is missing from the queue history: if no
+   submit of a new-config event ever found cbch full or the context done, then
+   whenever the monitor is back at its select the new-config events enqueued so
+   far are exactly the stored configs, one per Store, in store order *)
+Theorem no_drop_every_store_announced : forall (cfg sv : Type) (stack : list sv -> option cfg) (verify : cfg -> bool)
+    (p : params) (on_new on_err : bool) (cbcap : N) (inits : list sv) (watching : list bool)
+    (s0 : sys cfg sv) (ls : list (label sv)) (s : sys cfg sv) (st : mon_state sv),
+  snd (sys_init stack verify p inits watching) = Ok s0 ->
+  run stack verify p on_new on_err cbcap s0 ls = Some s ->
+  no_new_drop (s_log s) = true -> s_mon s = MRun st [] ->
+  new_cfgs (enq_of (s_log s)) = stores_of (mon_hist (s_log s)).
+Proof. exact @no_drop_every_store_announced_l. Qed.
+
+(* the unregister function returns true only after the callback goroutine
+   has logged the ack of exactly that call's done channel; with
+   sys_none_after_unregister: no invocation of h is logged after that return *)
+Theorem unregister_true_after_ack : forall (cfg sv : Type) (stack : list sv -> option cfg) (verify : cfg -> bool)
+    (p : params) (on_new on_err : bool) (cbcap : N) (inits : list sv) (watching : list bool)
+    (s0 : sys cfg sv) (ls : list (label sv)) (s : sys cfg sv) (tid : N) (l1 l2 : list (gevent cfg sv)),
+  snd (sys_init stack verify p inits watching) = Ok s0 ->
+  run stack verify p on_new on_err cbcap s0 ls = Some s ->
+  s_log s = l1 ++ GRet tid (RetBool true) :: l2 -> In (GAck tid) l1.
+Proof. exact @unregister_true_after_ack_l. Qed.
+
 Print Assumptions never_stale.
 Print Assumptions catchup_iff.
 Print Assumptions none_after_unregister.
@@ -224,3 +304,8 @@ Print Assumptions sys_old_is_predecessor.
 Print Assumptions handles_enqueued_once.
 Print Assumptions sys_never_stale.
 Print Assumptions sys_none_after_unregister.
+Print Assumptions callback_history_exact.
+Print Assumptions sys_catchup_iff.
+Print Assumptions sys_no_skip_without_overflow.
+Print Assumptions no_drop_every_store_announced.
+Print Assumptions unregister_true_after_ack.
